@@ -49,3 +49,9 @@ Print Assumptions C16_lock_discipline.
 Theorem C16_sessions_of_concurrent_setups_locked : Gen.lock_discipline_state = true.
 Proof. repeat split; reflexivity. Qed.
 Print Assumptions C16_sessions_of_concurrent_setups_locked.
+
+(* ... and no method that holds only a read lock writes shared state (defect D26, reported by the
+   race detector in this property's thorough tier during two simultaneous link setups) *)
+Theorem C16_read_locked_sections_do_not_write : Gen.read_locked_sections_do_not_write = true.
+Proof. reflexivity. Qed.
+Print Assumptions C16_read_locked_sections_do_not_write.
